@@ -12,21 +12,25 @@ use super::*;
 use crate::ChessMove;
 use chess_bitboard::{BitBoard, Pos, PromotionPiece};
 
+macro_rules! c10_instance {
+    ($m:ident, $cap:expr) => {
+        pub mod $m {
+            use super::*;
+            pub const CAP: usize = $cap;
 // The abstract functions are evaluated on a SNAPSHOT of the iterator (plain arrays, constant-trip loops):
 // one pass over the real ArrayVec per snapshot instead of a symbolic-length slice access per use.
-const CAP: usize = 18;
 
 #[derive(Clone, Copy)]
-struct Snap {
-    n: usize,
-    src: [u8; CAP],
-    moves: [u64; CAP],
-    promo: [bool; CAP],
-    mask: u64,
-    index: usize,
-    rem: usize,
+pub struct Snap {
+    pub n: usize,
+    pub src: [u8; CAP],
+    pub moves: [u64; CAP],
+    pub promo: [bool; CAP],
+    pub mask: u64,
+    pub index: usize,
+    pub rem: usize,
 }
-fn snap(g: &MoveGen) -> Snap {
+pub fn snap(g: &MoveGen) -> Snap {
     let mut s = Snap { n: g.moves.len(), src: [0; CAP], moves: [0; CAP], promo: [false; CAP], mask: g.mask.to_u64(), index: g.index, rem: g.promotions.len() };
     let mut i = 0;
     while i < CAP {
@@ -41,7 +45,7 @@ fn snap(g: &MoveGen) -> Snap {
     s
 }
 /// build the real iterator from a snapshot
-fn gen_of(s: &Snap) -> MoveGen {
+pub fn gen_of(s: &Snap) -> MoveGen {
     let mut moves = MoveList::default();
     let mut i = 0;
     while i < CAP {
@@ -53,7 +57,7 @@ fn gen_of(s: &Snap) -> MoveGen {
     MoveGen { moves, promotions: PROMOTION_PIECES[4 - s.rem..].iter(), mask: BitBoard::from_u64(s.mask), index: s.index }
 }
 /// an arbitrary iterator value with up to CAP = 18 entries (the real capacity)
-fn any_snap() -> Snap {
+pub fn any_snap() -> Snap {
     let s = Snap { n: kani::any(), src: kani::any(), moves: kani::any(), promo: kani::any(), mask: kani::any(), index: kani::any(), rem: kani::any() };
     kani::assume(s.n <= CAP && s.index <= s.n && s.rem >= 1 && s.rem <= 4);
     let mut i = 0;
@@ -64,12 +68,12 @@ fn any_snap() -> Snap {
     s
 }
 #[derive(Clone, Copy)]
-struct Q {
-    src: u8,
-    dst: u8,
-    piece: usize, // 0..3 = Q,R,B,N (yield order); 4 = none
+pub struct Q {
+    pub src: u8,
+    pub dst: u8,
+    pub piece: usize, // 0..3 = Q,R,B,N (yield order); 4 = none
 }
-fn piece_idx(p: Option<PromotionPiece>) -> usize {
+pub fn piece_idx(p: Option<PromotionPiece>) -> usize {
     match p {
         Some(PromotionPiece::Queen) => 0,
         Some(PromotionPiece::Rook) => 1,
@@ -78,15 +82,15 @@ fn piece_idx(p: Option<PromotionPiece>) -> usize {
         None => 4,
     }
 }
-fn q_of(m: ChessMove) -> Q {
+pub fn q_of(m: ChessMove) -> Q {
     Q { src: m.source as u8, dst: m.dest as u8, piece: piece_idx(m.piece) }
 }
-fn any_q() -> Q {
+pub fn any_q() -> Q {
     let q = Q { src: kani::any(), dst: kani::any(), piece: kani::any() };
     kani::assume(q.src < 64 && q.dst < 64 && q.piece <= 4);
     q
 }
-fn move_of(q: Q) -> ChessMove {
+pub fn move_of(q: Q) -> ChessMove {
     ChessMove {
         source: Pos::from_u8(q.src).unwrap(),
         dest: Pos::from_u8(q.dst).unwrap(),
@@ -99,17 +103,17 @@ fn move_of(q: Q) -> ChessMove {
         },
     }
 }
-fn same(a: Q, b: Q) -> bool {
+pub fn same(a: Q, b: Q) -> bool {
     a.src == b.src && a.dst == b.dst && a.piece == b.piece
 }
-fn bit(sq: u8) -> u64 {
+pub fn bit(sq: u8) -> u64 {
     1u64 << sq
 }
-fn masked(s: &Snap, i: usize) -> bool {
+pub fn masked(s: &Snap, i: usize) -> bool {
     s.moves[i] & s.mask != 0
 }
 /// does entry i encode move q (optionally: under the mask)?
-fn entry_has(s: &Snap, i: usize, q: Q, use_mask: bool) -> bool {
+pub fn entry_has(s: &Snap, i: usize, q: Q, use_mask: bool) -> bool {
     if s.src[i] != q.src || s.moves[i] & bit(q.dst) == 0 || s.promo[i] != (q.piece < 4) {
         return false;
     }
@@ -125,7 +129,7 @@ fn entry_has(s: &Snap, i: usize, q: Q, use_mask: bool) -> bool {
     }
     true
 }
-fn in_pending(s: &Snap, q: Q) -> bool {
+pub fn in_pending(s: &Snap, q: Q) -> bool {
     let mut found = false;
     let mut i = 0;
     while i < CAP {
@@ -136,7 +140,7 @@ fn in_pending(s: &Snap, q: Q) -> bool {
     }
     found
 }
-fn in_view(s: &Snap, q: Q) -> bool {
+pub fn in_view(s: &Snap, q: Q) -> bool {
     let mut found = false;
     let mut live = true;
     let mut i = 0;
@@ -153,7 +157,7 @@ fn in_view(s: &Snap, q: Q) -> bool {
     }
     found
 }
-fn view_len(s: &Snap) -> usize {
+pub fn view_len(s: &Snap) -> usize {
     // aligned with the real loop (`for legals in &self.moves[self.index..]`): step j looks at entry index + j
     let mut total = 0usize;
     let mut live = true;
@@ -177,7 +181,7 @@ fn view_len(s: &Snap) -> usize {
     total
 }
 /// structural invariant
-fn wf(s: &Snap) -> bool {
+pub fn wf(s: &Snap) -> bool {
     if s.index > s.n || s.rem == 0 || s.rem > 4 || s.n > CAP {
         return false;
     }
@@ -202,7 +206,7 @@ fn wf(s: &Snap) -> bool {
     ok
 }
 /// the generator yields each move once: entries of the same source square have disjoint destinations
-fn distinct(s: &Snap) -> bool {
+pub fn distinct(s: &Snap) -> bool {
     let mut ok = true;
     let mut i = 0;
     while i < CAP {
@@ -222,7 +226,7 @@ fn distinct(s: &Snap) -> bool {
 /// every other move's membership unchanged (so |view| drops by exactly one), wf preserved}
 #[kani::proof]
 #[kani::unwind(20)]
-fn c10_next() {
+pub fn c10_next() {
     let old = any_snap();
     kani::assume(wf(&old) && distinct(&old));
     let mut g = gen_of(&old);
@@ -250,7 +254,7 @@ fn c10_next() {
 /// len / is_empty / size_hint / count equal |view|
 #[kani::proof]
 #[kani::unwind(20)]
-fn c10_len() {
+pub fn c10_len() {
     let s = any_snap();
     kani::assume(wf(&s));
     let g = gen_of(&s);
@@ -264,7 +268,7 @@ fn c10_len() {
 /// {cursor at rest} set_mask(m) {pending unchanged; view = pending restricted to m; index = 0; wf}
 #[kani::proof]
 #[kani::unwind(20)]
-fn c10_set_mask() {
+pub fn c10_set_mask() {
     let old = any_snap();
     kani::assume(old.rem == 4);
     let mut g = gen_of(&old);
@@ -281,7 +285,7 @@ fn c10_set_mask() {
 /// {wf, cursor at rest} remove(m) {pending and view lose exactly the moves with destination in m; wf}
 #[kani::proof]
 #[kani::unwind(20)]
-fn c10_remove() {
+pub fn c10_remove() {
     let old = any_snap();
     kani::assume(wf(&old) && old.rem == 4);
     let mut g = gen_of(&old);
@@ -298,7 +302,7 @@ fn c10_remove() {
 /// remove_move(mv) {true <=> mv was pending; pending and view lose exactly mv; wf}
 #[kani::proof]
 #[kani::unwind(20)]
-fn c10_remove_move() {
+pub fn c10_remove_move() {
     let old = any_snap();
     kani::assume(wf(&old) && distinct(&old) && old.rem == 4);
     let mv = any_q();
@@ -327,7 +331,7 @@ fn c10_remove_move() {
 /// clone is an independent copy with the same state
 #[kani::proof]
 #[kani::unwind(20)]
-fn c10_clone() {
+pub fn c10_clone() {
     let s = any_snap();
     let g = gen_of(&s);
     let mut c = g.clone();
@@ -342,10 +346,10 @@ fn c10_clone() {
 
 #[kani::proof]
 #[kani::unwind(20)]
-fn c10_cover() {
+pub fn c10_cover() {
     let s = any_snap();
     kani::assume(wf(&s) && distinct(&s));
-    kani::cover!(s.n == 18 && s.index == 17 && view_len(&s) > 0);
+    kani::cover!(s.n == CAP && s.index == CAP - 1 && view_len(&s) > 0);
     kani::cover!(s.rem == 2 && view_len(&s) == 6);
     let mut g = gen_of(&s);
     let r = g.next();
@@ -356,12 +360,21 @@ fn c10_cover() {
 /// negated twin: must be refuted
 #[kani::proof]
 #[kani::unwind(20)]
-fn c10_negtwin() {
+pub fn c10_negtwin() {
     let s = any_snap();
     kani::assume(wf(&s));
     let g = gen_of(&s);
     assert!(g.len() != view_len(&s));
 }
+
+
+        }
+    };
+}
+// quick tier: up to 6 entries (bounded); thorough tier: the real capacity 18 (complete)
+c10_instance!(cap6, 6);
+c10_instance!(cap18, 18);
+use cap6::*;
 
 // ---------------------------------------------------------------- open known findings: concrete witnesses
 fn one_promotion_entry(moves: u64) -> MoveGen {
